@@ -628,6 +628,11 @@ def c09_task(task):
     # the execution timestamp is 10 s ahead of the verifier clock: inside the default slack (60), outside a slack of 3
     sf = {'sigfield1': b'abc', 'sigfield2': b'xyz', 'timestamp': tsh.Pins.now + 10}
     top_level = {}
+    # callbacks that act on the registries or on their tape while a run is in progress (once per task)
+    for v_ in tsh.reentrancy_probes():
+        stats['direct-fail'] += 1
+        viol.append(v_)
+    stats['reentrancy-probes'] += 1
 
     def result_keys(line):
         f = line.split(' | ')
@@ -839,6 +844,29 @@ def c02_task(task):
                 if len(viol) < 8:
                     viol.append(dict(what='with a field-rewriting signature extension %s: %s' % ('registered VM-wide' if vmw_ else 'passed to the call', prob_),
                                      case=dict(flag=fl_, cache=tsh.cache_str(ce_, False), key=PUBS[ke_].hex(), extension="cache[k] = b'EXT:' + cache[k] for every sigfield")))
+        if it % 40 == 15:
+            # an extension that RAISES (an exception of any class, StopIteration from a bare next() included) fails the instruction: no
+            # message, no signature, no verdict may come out of a run whose extension did not complete
+            exc_ = rng.choice([StopIteration, StopIteration, KeyError, ZeroDivisionError, RuntimeError])
+            def _raising(tape, stack, cache, exc_=exc_):
+                raise exc_('extension cannot complete')
+            kx_ = rng.randrange(len(SEEDS))
+            cx_ = {'sigfield1': b'abc', 'sigfield2': b'xyz'}
+            sx_ = tsh.SigningKey(SEEDS[kx_]).sign(b'abcxyz').signature
+            for scr_, nm_ in ((op('GET_MESSAGE') + b'\x00', 'GET_MESSAGE'), (push(SEEDS[kx_]) + op('SIGN') + b'\x00', 'SIGN'),
+                              (push(sx_) + push(PUBS[kx_]) + op('CHECK_SIG') + b'\x00', 'CHECK_SIG'),
+                              (push(sx_) + push(PUBS[kx_]) + op('CHECK_MULTISIG') + b'\x00\x01\x01', 'CHECK_MULTISIG')):
+                stats['raising-extension'] += 1
+                for plugs_ in ([_raising], [_ext, _raising]):
+                    try:
+                        r_ = tsh.F.run_script(scr_, dict(cx_), plugins={'signature_extensions': list(plugs_)})[1].list()
+                    except BaseException:
+                        r_ = None
+                    if r_ is not None:
+                        stats['direct-fail'] += 1
+                        if len(viol) < 8:
+                            viol.append(dict(what='a signature extension raised %s, yet OP_%s went on and left %s' % (exc_.__name__, nm_, [x_.hex()[:40] for x_ in r_]),
+                                             case=dict(script=scr_.hex(), cache=tsh.cache_str(cx_, False), extension='raise %s(...)' % exc_.__name__)))
         present = rng.getrandbits(8) if rng.random() < 0.7 else rng.choice([0, 1, 0xff, 3])
         cache = {'sigfield%d' % i: bytes(rng.getrandbits(8) for _ in range(rng.choice([0, 1, 3, 9])))
                  for i in range(1, 9) if (present >> (i - 1)) & 1}
@@ -942,6 +970,8 @@ def c03_task(task):
         # roomy but unequal stack limits now and then (depth limit below / above the size of the message and of a signature, item limit
         # well above both): the verdict may not depend on them
         cfg = tsh.Cfg() if rng.random() < 0.8 else tsh.Cfg(max_items=rng.choice([64, 96, 200, 1024, 2048]), max_item_size=rng.choice([200, 512, 1024, 4096]))
+        if rng.random() < 0.15:       # signature extensions in force (per call or VM-wide): they run once per CHECK_MULTISIG, not once per attempt
+            cfg = tsh.Cfg(max_items=cfg.max_items, max_item_size=cfg.max_item_size, sigext=rng.choice([(1,), (1, 2)]), vmwide=rng.random() < 0.4)
         sf = {'sigfield1': bytes(rng.getrandbits(8) for _ in range(rng.choice([4, 4, 4, 40, 120]))), 'sigfield2': b'zz'}
         nk = rng.randint(1, 4)
         ks = rng.sample(range(len(SEEDS)), nk)
@@ -991,6 +1021,15 @@ def c03_task(task):
         stats[st] += 1
         digests.add(hashlib.sha256(script).digest()[:8])
         case = dict(script=script.hex(), cache=tsh.cache_str(sf, False), cfg=cfg.to_json(), m=m, n=nk)
+        if cfg.sigext and second is None and iline.split(' | ')[0] == 'done':
+            # the extensions ran exactly once (each) for the one CHECK_MULTISIG of this run
+            ran_ = sum(1 for e_ in iline.split(' | ')[5].split(',') if e_.startswith('x'))
+            stats['multisig-with-extensions'] += 1
+            if ran_ != len(cfg.sigext):
+                stats['direct-fail'] += 1
+                if len(viol) < 8:
+                    viol.append(dict(what='the signature extensions ran %d time(s) during one CHECK_MULTISIG (%d signature(s), %d key(s)); %d extension(s) are registered and '
+                                          'each runs once per instruction' % (ran_, m, nk, len(cfg.sigext)), case=case))
         if second is not None:
             f2 = iline.split(' | ')
             stats['second-check-' + second[0]] += 1
